@@ -2,6 +2,7 @@ package lakesim
 
 import (
 	"fmt"
+	"runtime/debug"
 
 	"github.com/brimdata/super/compiler"
 	"github.com/segmentio/ksuid"
@@ -32,7 +33,16 @@ func runInWorld(tape *kernel.Tape, prop string, body func(w *World) *kernel.Viol
 	p, leaked := InBubble(func() {
 		mode := simdisk.Mode(tape.Stream("knobs").Intn(2))
 		w := NewWorld(tape, mode, out)
-		w.Sched.Go(func() { viol = body(w) })
+		defer w.Disk.Close()
+		w.Sched.Go(func() {
+			defer func() {
+				if r := recover(); r != nil {
+					st := string(debug.Stack())
+					viol = &kernel.Violation{Signature: prop + ":panic:" + kernel.PanicSite(st), Message: fmt.Sprintf("panic: %v\n%s", r, st)}
+				}
+			}()
+			viol = body(w)
+		})
 		w.Sched.Run()
 		w.Finish()
 	})
